@@ -26,15 +26,20 @@
         rename_merges_kinvar_with_parameter_refuted ; two kinematic variables identified:
         rename_merges_two_kinvars_refuted
      empty / unknown names .................................. rename_empty, rename_unknown_noop
-     repeated renames ....................................... rename_compose_partial, rename_compose_symbol
-        (PARTIAL: the composite of the two symbol maps is applied; that this composite is the
-        sigma of ONE composed map is proved per symbol only, not for the collected sets)
-   rename_semantics / rename_preserves_closure are for PoolSum-free expressions ([nb]); every
-   model of the harness zoo is in that class (the alignment sums are evaluated by the builder);
-   for expressions with PoolSum nodes only the syntactic statements hold here. *)
+     repeated renames ....................................... rename_compose (full model equality
+        rename (rename m r1) r2 = rename m (compose r1 r2) under the side conditions the faithful
+        model forces), rename_compose_symbol_full (per symbol, unconditional up to wf_map),
+        rename_compose_uncollected_refuted / rename_compose_double_merge_refuted (the equality is
+        FALSE without the collected-set condition resp. without injectivity on parameters),
+        rename_compose_partial, rename_compose_symbol (older, weaker forms)
+   rename_semantics / rename_merge_couples are for PoolSum-free expressions ([nb]);
+   rename_semantics_poolsum / rename_merge_couples_poolsum extend them to expressions with PoolSum
+   nodes under [binder_safe] (no bound index is renamed, no symbol is renamed onto a bound index),
+   with [denB] summing over the pools; [denB] agrees with [den] on PoolSum-free trees
+   (poolsum_semantics_extends).  rename_preserves_closure is still for PoolSum-free expressions. *)
 From Coq Require Import Permutation.
 From AV Require Import Ast Rename.
-From AVchk Require Import C17_lemmas.
+From AVchk Require Import C17_lemmas C17_lemmas2.
 Open Scope string_scope.
 Open Scope list_scope.
 
@@ -191,6 +196,134 @@ Example toy_rename_computes :
         [("c", App HMul [Sym "h"; Sym "g|3"])].
 Proof. exact toy_result. Qed.
 
+
+(* ---------------------------------------------------------------- semantics with PoolSum nodes *)
+(* denB rho (PoolSum body (i1, vals1) ... ) = sum over v1 in vals1, ... of denB rho[i1:=v1,...] body,
+   the values being evaluated in the outer environment; every other node is compositional. *)
+Theorem rename_semantics_poolsum :
+  forall unfold nrank arank m r,
+  r <> [] -> wf_model nrank arank m ->
+  let sg := sigma_of unfold m r in
+  (forall s, In s (syms (intensity m)) -> sg s = s) ->
+  (forall s, In s (syms (unfold (intensity m))) -> sg s = s) ->
+  nb (unfold (intensity m)) = true ->
+  binder_safe sg (expression unfold m) ->
+  forall (V : Type) (qval : Q -> V) (interp : head -> list V -> V) (vzero : V) (vadd : V -> V -> V)
+         (rho : string -> V),
+    denB V qval interp vzero vadd rho (expression unfold (rename unfold nrank arank m r))
+    = denB V qval interp vzero vadd (fun s => rho (sg s)) (expression unfold m).
+Proof. exact rename_semantics_poolsum_l. Qed.
+
+Theorem xreplace_semantics_poolsum :
+  forall (V : Type) (qval : Q -> V) (interp : head -> list V -> V) (vzero : V) (vadd : V -> V -> V)
+         sg rho e,
+  binder_safe sg e ->
+  denB V qval interp vzero vadd rho (xr sg [] e)
+  = denB V qval interp vzero vadd (fun s => rho (sg s)) e.
+Proof. exact denB_xr. Qed.
+
+Theorem rename_merge_couples_poolsum :
+  forall (V : Type) (qval : Q -> V) (interp : head -> list V -> V) (vzero : V) (vadd : V -> V -> V)
+         sg rho e a b c,
+  binder_safe sg e -> sg a = c -> sg b = c -> (forall s, s <> a -> s <> b -> sg s = s) ->
+  denB V qval interp vzero vadd rho (xr sg [] e)
+  = denB V qval interp vzero vadd
+      (fun s => if String.eqb s a then rho c else if String.eqb s b then rho c else rho s) e.
+Proof. exact denB_merge. Qed.
+
+Theorem poolsum_semantics_extends :
+  forall (V : Type) (qval : Q -> V) (interp : head -> list V -> V) (vzero : V) (vadd : V -> V -> V) rho e,
+  nb e = true -> denB V qval interp vzero vadd rho e = den V qval interp rho e.
+Proof. exact denB_nb. Qed.
+
+Example poolsum_toy_is_binder_safe : binder_safe ps_sg ps_toy.
+Proof. exact ps_toy_safe. Qed.
+
+(* sum_{i in {1,2}} x*i at x = 5, before and after renaming x -> y *)
+Example poolsum_toy_value :
+  denB Z (fun q => Qnum q) zinterp 0%Z Z.add (fun s => if String.eqb s "y" then 5%Z else 0%Z)
+       (xr ps_sg [] ps_toy) = 15%Z
+  /\ denB Z (fun q => Qnum q) zinterp 0%Z Z.add (fun s => if String.eqb s "x" then 5%Z else 0%Z) ps_toy = 15%Z.
+Proof. exact ps_toy_value. Qed.
+
+(* ---------------------------------------------------------------- composition of two renames *)
+(* compose r1 r2 : n |-> r2*(r1*(n)) for n in dom r1 ++ dom r2 (r* = r extended by the identity) *)
+Theorem rename_compose_symbol_full :
+  forall r1 r2 s, wf_map r1 -> ren r2 (ren r1 s) = ren (compose r1 r2) s.
+Proof. exact ren_comp. Qed.
+
+Theorem rename_compose :
+  forall unfold nrank arank m r1 r2,
+  r1 <> [] -> r2 <> [] -> wf_map r1 ->
+  wf_model nrank arank m -> wf_model nrank arank (rename unfold nrank arank m r1) ->
+  let s1 := sigma_of unfold m r1 in
+  let s2 := sigma_of unfold (rename unfold nrank arank m r1) r2 in
+  let sc := sigma_of unfold m (compose r1 r2) in
+  (* collected-set conditions: a symbol of the model is collected after r1 iff it was before *)
+  (forall s, In s (occ m) -> mem s (collect unfold m) = false ->
+     mem s (collect unfold (rename unfold nrank arank m r1)) = false) ->
+  (forall s, In s (occ m) -> mem s (collect unfold m) = true ->
+     mem (ren r1 s) (collect unfold (rename unfold nrank arank m r1)) = true) ->
+  (* the intensity mentions only private symbols *)
+  (forall s, In s (syms (intensity m)) -> s1 s = s /\ s2 s = s) ->
+  (* the second map renames no bound summation index *)
+  (forall e i, In e (values m) -> In i (all_binders e) -> s2 i = i) ->
+  (* injectivity: r1 merges no parameters and no kinematic variables, the composite merges no
+     kinematic variables, and the final kinematic-variable names have distinct sort ranks *)
+  NoDup (map (fun kv => kmap s1 (fst kv)) (parameter_defaults m)) ->
+  NoDup (map (fun kv => s1 (fst kv)) (kinematic_variables m)) ->
+  NoDup (map (fun kv => sc (fst kv)) (kinematic_variables m)) ->
+  (forall a b, In a (kinematic_variables m) -> In b (kinematic_variables m) ->
+     nrank (name_of (sc (fst a))) = nrank (name_of (sc (fst b))) -> sc (fst a) = sc (fst b)) ->
+  rename unfold nrank arank (rename unfold nrank arank m r1) r2
+  = rename unfold nrank arank m (compose r1 r2).
+Proof. exact rename_compose_l. Qed.
+
+Theorem rename_compose_uncollected_refuted :
+  exists m r1 r2, wf_model z1 z2 m /\ wf_map r1 /\ r1 <> [] /\ r2 <> []
+    /\ rename toy_unfold z1 z2 (rename toy_unfold z1 z2 m r1) r2
+       <> rename toy_unfold z1 z2 m (compose r1 r2).
+Proof. exact compose_uncollected_refuted. Qed.
+
+Theorem rename_compose_double_merge_refuted :
+  exists m r1 r2, wf_model z1 z2 m /\ wf_map r1 /\ r1 <> [] /\ r2 <> []
+    /\ (forall s, In s (occ m) -> mem s (collect toy_unfold m) = true \/ In s (syms (intensity m)))
+    /\ rename toy_unfold z1 z2 (rename toy_unfold z1 z2 m r1) r2
+       <> rename toy_unfold z1 z2 m (compose r1 r2).
+Proof. exact compose_double_merge_refuted. Qed.
+
+Example compose_toy_wellformed :
+  wf_model frank z2 toy /\ wf_model frank z2 (rename toy_unfold frank z2 toy c_r1).
+Proof. exact (conj toy_wf_frank toy1_wf_frank). Qed.
+
+Example compose_toy_hypotheses :
+  let m := toy in
+  let s1 := sigma_of toy_unfold m c_r1 in
+  let s2 := sigma_of toy_unfold (rename toy_unfold frank z2 m c_r1) c_r2 in
+  let sc := sigma_of toy_unfold m (compose c_r1 c_r2) in
+  wf_map c_r1
+  /\ (forall s, In s (occ m) -> mem s (collect toy_unfold m) = false ->
+        mem s (collect toy_unfold (rename toy_unfold frank z2 m c_r1)) = false)
+  /\ (forall s, In s (occ m) -> mem s (collect toy_unfold m) = true ->
+        mem (ren c_r1 s) (collect toy_unfold (rename toy_unfold frank z2 m c_r1)) = true)
+  /\ (forall s, In s (syms (intensity m)) -> s1 s = s /\ s2 s = s)
+  /\ (forall e i, In e (values m) -> In i (all_binders e) -> s2 i = i)
+  /\ NoDup (map (fun kv => kmap s1 (fst kv)) (parameter_defaults m))
+  /\ NoDup (map (fun kv => s1 (fst kv)) (kinematic_variables m))
+  /\ NoDup (map (fun kv => sc (fst kv)) (kinematic_variables m))
+  /\ (forall a b, In a (kinematic_variables m) -> In b (kinematic_variables m) ->
+        frank (name_of (sc (fst a))) = frank (name_of (sc (fst b))) -> sc (fst a) = sc (fst b)).
+Proof. exact toy_compose_hyps. Qed.
+
+Example compose_toy_value :
+  rename toy_unfold frank z2 (rename toy_unfold frank z2 toy c_r1) c_r2
+  = Model (intensity toy)
+          [(A0, App HMul [Sym "g2"; Sym "m|3"; App HCos [Sym "k|3"]; Sym "i|3"])]
+          [(Sym "g2", "(1+0j)"); (Sym "m|3", "0.98")]
+          [("i|3", App (HOther "Phi") [Sym "q"]); ("k|3", App (HOther "Theta") [Sym "p"])]
+          [("c", App HMul [Sym "g2"; Sym "m|3"])].
+Proof. exact toy_compose_value. Qed.
+
 Print Assumptions rename_is_xreplace.
 Print Assumptions rename_kinematic_variables_complete.
 Print Assumptions rename_expression_is_xreplace.
@@ -211,3 +344,16 @@ Print Assumptions toy_is_wellformed.
 Print Assumptions toy_is_closed.
 Print Assumptions toy_satisfies_hypotheses.
 Print Assumptions toy_rename_computes.
+Print Assumptions rename_semantics_poolsum.
+Print Assumptions xreplace_semantics_poolsum.
+Print Assumptions rename_merge_couples_poolsum.
+Print Assumptions poolsum_semantics_extends.
+Print Assumptions poolsum_toy_is_binder_safe.
+Print Assumptions poolsum_toy_value.
+Print Assumptions rename_compose_symbol_full.
+Print Assumptions rename_compose.
+Print Assumptions rename_compose_uncollected_refuted.
+Print Assumptions rename_compose_double_merge_refuted.
+Print Assumptions compose_toy_wellformed.
+Print Assumptions compose_toy_hypotheses.
+Print Assumptions compose_toy_value.
